@@ -876,7 +876,31 @@ class IRGenerator:
         a separate pass because it requires all fields and routes to be defined so that
         recursive chains can be followed accurately.
         """
-        data_types_seen = set()
+        def direct(data_type):
+            """The data types a composite type refers to, and the custom
+            annotations applied directly to its fields (or to the alias)."""
+            successors, annotations = [], set()
+            if is_struct_type(data_type) or is_union_type(data_type):
+                # custom annotations of ancestor data types
+                if data_type.parent_type:
+                    successors.append(data_type.parent_type)
+                for field in data_type.fields:
+                    # custom annotations of nested data types
+                    successors.append(field.data_type)
+                    # annotations can be defined directly on fields
+                    annotations.update([(field, annotation)
+                                        for annotation in field.custom_annotations])
+            elif is_alias(data_type):
+                successors.append(data_type.data_type)
+                # annotations can be defined directly on aliases
+                annotations.update([(data_type, annotation)
+                                    for annotation in data_type.custom_annotations])
+            elif is_list_type(data_type) or is_nullable_type(data_type):
+                successors.append(data_type.data_type)
+            elif is_map_type(data_type):
+                # only map values support annotations for now
+                successors.append(data_type.value_data_type)
+            return successors, annotations
 
         def recurse(data_type):
             # primitive types do not have annotations
@@ -887,37 +911,32 @@ class IRGenerator:
             if data_type.recursive_custom_annotations is not None:
                 return data_type.recursive_custom_annotations
 
-            # handle cycles safely (annotations will be found first time at top level)
-            if data_type in data_types_seen:
-                return set()
-            data_types_seen.add(data_type)
-
+            # Collect over everything reachable from this data type. Every
+            # data type gets its own traversal, so that the members of a
+            # reference cycle all see the whole cycle whichever of them is
+            # analyzed first.
             annotations = set()
-
-            if is_struct_type(data_type) or is_union_type(data_type):
-                # collect custom annotations from ancestor data types
-                if data_type.parent_type:
-                    annotations.update(recurse(data_type.parent_type))
-                # collct custom annotations from nested data types
-                for field in data_type.fields:
-                    annotations.update(recurse(field.data_type))
-                    # annotations can be defined directly on fields
-                    annotations.update([(field, annotation)
-                                        for annotation in field.custom_annotations])
-            elif is_alias(data_type):
-                annotations.update(recurse(data_type.data_type))
-                # annotations can be defined directly on aliases
-                annotations.update([(data_type, annotation)
-                                    for annotation in data_type.custom_annotations])
-            elif is_list_type(data_type):
-                annotations.update(recurse(data_type.data_type))
-            elif is_map_type(data_type):
-                # only map values support annotations for now
-                annotations.update(recurse(data_type.value_data_type))
-            elif is_nullable_type(data_type):
-                annotations.update(recurse(data_type.data_type))
+            seen = set()
+            unanalyzed = []
+            pending = [data_type]
+            while pending:
+                cur = pending.pop()
+                if not is_composite_type(cur) or id(cur) in seen:
+                    continue
+                seen.add(id(cur))
+                if cur.recursive_custom_annotations is not None:
+                    annotations.update(cur.recursive_custom_annotations)
+                    continue
+                unanalyzed.append(cur)
+                successors, own = direct(cur)
+                annotations.update(own)
+                pending.extend(successors)
 
             data_type.recursive_custom_annotations = annotations
+            # the data types met on the way (list, map and nullable wrappers
+            # included) are analyzed as well
+            for cur in unanalyzed:
+                recurse(cur)
             return annotations
 
         for namespace in self.api.namespaces.values():
